@@ -258,6 +258,31 @@ PROPS["C15"] = {
     ],
 }
 
+PROPS["C13"] = {
+    "level": "exploration",
+    "rule": "cases are 1-3 hostile steps on one location (indexed or linear; as a library through core.Location or through sys.System "
+            "with JSON strings): a JSON document used as fact, rule, search pattern, rule-search event, query, event or a hostile id "
+            "(empty, '!'-prefixed, variable-looking, 1100 bytes). Documents are drawn from a grammar biased towards reserved keys "
+            "(rule, when, pattern, schedule, expires, ttl, deleteWith, id, _id, !props, actions, condition, policies, code, and/or/not, "
+            "trigger!, evaluate!, ...) carrying values of every JSON type, variable-looking strings and keys, empty containers, "
+            "heterogeneous arrays, 1e308, nesting up to depth 200, or from a well-formed skeleton with one corrupted field; follow-up "
+            "steps reuse a tiny alphabet so that a stored hostile fact meets a pattern with repeated variables. Oracle: every call "
+            "returns within 8 s without panic (child death / stack overflow is caught through the journal); accepted facts and rules "
+            "can be removed again; then ten canary operations (add/get/search/list/rule search/event/query/remove) give exactly the "
+            "transcript of a fresh twin location. Non-trivial = a reserved key is used or nesting is deeper than 8. Distinct = "
+            "distinct canonical JSON.",
+    "assumptions": COMMON_ASSUMPTIONS + [
+        "facts and events are generated without strings that start with '?' (known finding matcher-recursion-on-variable-data kills the process); patterns, queries and rules do contain them",
+        "scripts that do not terminate are C14's business and are not generated here",
+        "steps that legitimately change the location for later traffic (property facts such as !enabled/!writeKey, overwriting the canary, generated ids) are run for crash/hang only and not compared with the twin",
+        "the HTTP layer's own parsing of empty bodies and parameters is exercised by C18's check",
+    ],
+    "parts": [
+        {"name": "hostile", "mode": "plain", "test": "TestC13",
+         "quick": {"checks": 4000, "shards": 4, "timeout": 900}, "thorough": {"checks": 60000, "shards": 16}},
+    ],
+}
+
 # Properties deliberately not claimed (reason shown in MANIFEST.not_applicable).
 NOT_APPLICABLE = {}
 
@@ -318,6 +343,11 @@ TEXT = {
         "technique": _PBT + "stateful generated histories vs reference model with a recording cron (registration-set invariant, harness-delivered ticks) and the real cron on a virtual clock",
         "level_text": "Generated exploration of the rule/cron coupling across locations; registrations compared after every step. Not a proof.",
         "level_note": "Trusted: recording Cronner (props/c15_test.go), reference model, Go faketime for the InternalCron part.",
+    },
+    "C13": {
+        "technique": _PBT + "grammar-based hostile-document generation against every role and API level; totality oracle (panic/fatal/hang via journaled child) + differential canary transcript vs fresh twin",
+        "level_text": "Generated exploration of hostile inputs; process death and hangs are observed from outside the process. Not a proof; native coverage-guided fuzzing was not needed to find the defects listed.",
+        "level_note": "Trusted: journaled child-process runner; canary transcript comparison. The one known crasher (dependency) is excluded by construction and replayed on every run.",
     },
     "C05": {
         "technique": _PBT + "generated (pattern, data, bindings) vs independent brute-force matcher; substitution round-trip; metamorphic typed variants",
